@@ -225,6 +225,8 @@ Proof.
     simpl; intros s Hs c' Hc'; repeat (destruct Hs as [<-|Hs]; [inversion Hc'; reflexivity|]); destruct Hs|]).
   destruct k; discriminate.
 Qed.
+Example ex_always_live : always_live (fst (expand ex_prog)).
+Proof. apply C10_total_program_always_live; [exact ex_prog_ok|exact ex_prog_total]. Qed.
 Example ex_hist_increasing : increasing 0 ex_hist.
 Proof. simpl. repeat split; reflexivity. Qed.
 (* 11 registered nodes: the source, 3 for map, 1 filter, 1 union, 3 for count, 2 actions *)
